@@ -12,7 +12,7 @@ package datatransfer
 
 //@ interface TransferConfig
 //@   pure EventsCb, TransportOptions
-//@ func datatransfer.FromOptions {C17}
+//@ func datatransfer.FromOptions
 //@   effectfree -- boundary: option closures are applied to a fresh config; only non-nilness of the result is assumed
 
 //@ interface Message
